@@ -15,6 +15,9 @@ def main():
     ids = sorted(d for d in os.listdir(os.path.join(VERIF, "seeded")) if os.path.isdir(os.path.join(VERIF, "seeded", d)))
     if prefixes:
         ids = [i for i in ids if any(i.startswith(p) for p in prefixes)]
+    if os.environ.get("SWEEP_WAVE"):
+        want = int(os.environ["SWEEP_WAVE"])
+        ids = [i for i in ids if json.load(open(os.path.join(VERIF, "seeded", i, "meta.json"))).get("wave", 1) == want]
     lock = threading.Lock()
     results = {}
 
